@@ -32,6 +32,8 @@ def make_arg(spec):
         return [1, 2, 3]
     if kind == "float":
         return 1.5
+    if kind == "surrogate":
+        return "lone surrogate \ud800 cannot be encoded"
     raise ValueError(spec)
 
 
@@ -48,6 +50,8 @@ def expected_of(call, negotiated):
     ('reject', (exception classes...))."""
     m = call["m"]
     if m == "send_text":
+        if call["arg"][0] == "surrogate":
+            return ("reject", (TypeError, ValueError))      # UnicodeEncodeError is a ValueError
         if not is_text_arg(call["arg"]):
             return ("reject", (TypeError,))
         comp = call.get("compress", True)
@@ -88,7 +92,9 @@ def perform(ws, call):
     if m in ("send_text", "send_binary"):
         arg = make_arg(call["arg"])
         keep = copy.deepcopy(arg) if not isinstance(arg, memoryview) else bytes(arg)
-        if "compress" in call:
+        if "compress" in call and call.get("positional"):
+            getattr(ws, m)(arg, call["compress"])
+        elif "compress" in call:
             getattr(ws, m)(arg, compress=call["compress"])
         else:
             getattr(ws, m)(arg)
@@ -150,7 +156,7 @@ class C03(Prop):
     def strategy(self, tier):
         bytes_arg = gen.binary_spec(big=True, cap=70000)
         text_arg = gen.text_spec(big=True, cap_chars=30000)
-        wrong_for_text = st.one_of(bytes_arg, st.just(["none"]), st.just(["int", 7]),
+        wrong_for_text = st.one_of(bytes_arg, st.just(["none"]), st.just(["int", 7]), st.just(["surrogate"]),
                                    st.just(["bytearray", "6162"]), st.just(["list"]))
         wrong_for_bytes = st.one_of(text_arg, st.just(["none"]), st.just(["int", 7]), st.just(["float"]),
                                     st.binary(max_size=10).map(lambda b: ["bytearray", b.hex()]),
@@ -170,6 +176,7 @@ class C03(Prop):
             d = {"m": m, "arg": arg}
             if c is not None:
                 d["compress"] = c
+                d["positional"] = len(str(arg)) % 2 == 0     # compress passed positionally or by keyword
             return d
         reason_ok = st.one_of(gen.close_reason().map(lambda s: ["s", s]),
                               st.binary(max_size=123).map(lambda b: ["b", b.hex()]))
